@@ -66,4 +66,14 @@ CLAIMED["C06"] = {
     "note": TB,
     "technique": "Lean 4 proof (history invariant over pushes; generic associativity argument) + differential correspondence",
 }
+CLAIMED["C05"] = {
+    "text": "Theorems for ALL depths and indices (not a sample): NUNIQ decode∘encode = id and encode∘decode = id on codes >= 4, NUNIQ order = (depth, idx) "
+            "lexicographic, z-order-uniq decode∘encode = id for every quantity/width/legal depth, width widening/narrowing round trip and monotonicity, and the "
+            "one-step theorem of the greedy cell view (legal depth, aligned cell, exactly the head of the range, progress). Partial: list-level statements "
+            "(cell view = the set / normal form, cell ranges, flat cells, NUNIQ range iterators) are decided by the correspondence check (exact agreement of "
+            "the transliterated models with the code, plus identity round trips) and not yet by a theorem.",
+    "design_ref": "DESIGN.md §4 C05, §10",
+    "note": TB + "; log2 / trailing-zero specifications of the CPU instructions",
+    "technique": "Lean 4 proof (arithmetic on codes) + differential correspondence",
+}
 NOT_YET = {}
